@@ -262,3 +262,67 @@ def threaded(world, fn, timeout=120):
     if errs:
         raise RuntimeError(f"rank errors: {errs}")
     return res
+
+
+# ---------------------------------------------------------------------------------------------------------
+# representation invariant of the DDP-style masked lists on a bare object of the real class (no process group needed)
+
+
+def run_ri_bare(case, name):
+    """The real `merge_and_block_gradients` of DDPDistributor / HSDPDistributor / HybridShardDistributor re-establishes
+    masked = compress(unmasked, current selectors) for the five masked lists, from ANY previous global gradient-presence pattern
+    to ANY new one, for every ownership pattern of three blocks (complete transition enumeration; `_merge_and_block_gradients`
+    is replaced by its contract: it sets `_global_grad_selector` to the per-block presence)."""
+    mod, C, _ = _cls(name)
+    func = f"{C.__name__}.merge_and_block_gradients"
+    pats = list(itertools.product((False, True), repeat=3))
+    out = []
+    for own in [p for p in pats if any(p)]:
+        bad = []
+        for prev in [None] + pats:
+            for new in pats:
+                obj = object.__new__(C)
+                gp = tuple(object() for _ in range(3))
+                gb = tuple(object() for _ in range(3))
+                obj._global_blocked_params, obj._global_dist_blocked_buffers = gp, gb
+                obj._distributor_selector = tuple(own)
+                cmp_ = lambda xs, s: tuple(itertools.compress(xs, s))
+                obj._local_blocked_params, obj._local_dist_blocked_buffers = cmp_(gp, own), cmp_(gb, own)
+                # constructor state: everything unmasked
+                obj._global_masked_blocked_params, obj._global_masked_dist_blocked_buffers = gp, gb
+                obj._local_masked_blocked_params, obj._local_masked_dist_blocked_buffers = obj._local_blocked_params, obj._local_dist_blocked_buffers
+                obj._local_grad_selector = (True,) * sum(own)
+                obj._global_grad_selector = (True,) * 3
+                obj._previous_global_grad_selector = None
+                cur = {}
+
+                def mbg():
+                    obj._global_grad_selector = tuple(cur["pat"])
+                    return ()
+
+                obj._merge_and_block_gradients = mbg
+                for pat in ([prev] if prev is not None else []) + [new]:
+                    cur["pat"] = pat
+                    obj.merge_and_block_gradients()
+                same = lambda a, b: len(a) == len(b) and all(x is y for x, y in zip(a, b))
+                lsel = cmp_(new, own)
+                errs = []
+                if tuple(obj._local_grad_selector) != lsel:
+                    errs.append("local_grad_selector")
+                if not same(obj._local_masked_blocked_params, cmp_(obj._local_blocked_params, lsel)):
+                    errs.append("local_masked_blocked_params")
+                if not same(obj._global_masked_blocked_params, cmp_(gp, new)):
+                    errs.append("global_masked_blocked_params")
+                if not same(obj._global_masked_dist_blocked_buffers, cmp_(gb, new)):
+                    errs.append("global_masked_dist_blocked_buffers")
+                if not same(obj._local_masked_dist_blocked_buffers, cmp_(obj._local_dist_blocked_buffers, lsel)):
+                    errs.append("local_masked_dist_blocked_buffers")
+                if errs:
+                    bad.append((prev, new, errs))
+        o = "".join(str(int(x)) for x in own)
+        out.append(result(f"{func}/masked-lists=compress(lists,current-selectors)-after-any-transition[{case}/own{o}]", func, "discharged" if not bad else "violated",
+                          backend="concrete-execution of the real method (complete transition enumeration)", case=case,
+                          text="all five masked lists are re-derived from the CURRENT global/local selectors, also when only blocks owned by another rank change"
+                               + (f"; VIOLATED e.g. previous {bad[0][0]} -> new {bad[0][1]}: stale {bad[0][2]}" if bad else ""),
+                          replay=dict(kind="ddp_native", cls=name), model=dict(first_bad=str(bad[:1]))))
+    return out
